@@ -218,6 +218,12 @@ func tlaLit(v any) string {
 	case string:
 		q, _ := json.Marshal(x)
 		return string(q)
+	case []string:
+		parts := make([]string, len(x))
+		for i, e := range x {
+			parts[i] = tlaLit(e)
+		}
+		return "<<" + strings.Join(parts, ", ") + ">>"
 	case []any:
 		parts := make([]string, len(x))
 		for i, e := range x {
